@@ -217,6 +217,7 @@ func (self *localBatchedBuffer) commit() {
 		return
 	}
 
+	var open *localBatch
 	for _, v := range self.buff {
 		dt, key, _, err := expDecodeTimeKey(v.timeKey)
 		if err != nil || dataType2CommonType(dt) == common.NONE {
@@ -228,6 +229,15 @@ func (self *localBatchedBuffer) commit() {
 		}
 
 		batched := self.batched[dataType2CommonType(dt)]
+		// only one of the per-type write batches may hold pending operations at a time: an engine
+		// whose write batch is a write transaction (mem) allows a single open batch, a second one
+		// opened by this goroutine would wait for the first forever
+		if open != nil && open != batched {
+			if err := open.commit(); err != nil {
+				dbLog.Errorf("batch delete expired data of type:%s failed, err:%s", open.dt.String(), err.Error())
+			}
+		}
+		open = batched
 
 		err = batched.propose(v.timeKey, v.metaKey, key)
 		if err == ErrLocalBatchFullToCommit {
